@@ -117,6 +117,14 @@ def check_C02(chk):
         c["plans"] = [p[:3] for p in c["plans"][:4]]
         c["late"] = 0
     jobs.append((None, big))
+    # bursts: many small messages pending on one channel before the receiver looks at it (default buffers; every observer)
+    bursts = []
+    for i in range(60 if thorough else 10):
+        ns = rng.randint(1, 3)
+        total = rng.choice([66, 70, 100, 129, 150, 180])    # all senders share ONE channel and nobody reads meanwhile: stay below what its buffer holds
+        bursts.append({"id": 100000 + i, "plans": [[64] * (total // ns) for _ in range(ns)],
+                       "mode": ["set", "eager", "poll", "timeout", "set"][i % 5], "procs": 0, "late": 1 if i % 3 != 2 else 0, "delay_us": 0, "S": F.DEFAULT_S})
+    jobs.append((None, bursts))
     with concurrent.futures.ThreadPoolExecutor(max_workers=8) as ex:
         results = list(ex.map(lambda j: run_conc(bins["default"], j[0], j[1]), jobs))
     # in-process transport: same oracle, no system calls to trace
@@ -439,6 +447,11 @@ def check_C09(chk):
         it = bad[0]
         chk.unproved("correspondence: call sequence of a send to a vanished receiver differs from Frag.send under [FPipe]",
                      {"input": it["case"], "observed_send": it["send_obs"]})
+    # receivers that vanish inside histories (dropped, moved, carried by messages that die or cannot be decoded): prog driver slice
+    from . import props_prog as PP
+    pf, pb = PP.prog_slice(chk, "C09", bins["default"], 400 if thorough else 48, 60)
+    fails = fails + pf
+    bad = bad + pb
     chk.assumptions += ["a socket whose peer description has no reference left (held or in flight in a live queue) reports EPIPE/ECONNRESET to the sender (kernel)",
                         "that a thread blocked in send(2) is woken when the peer disappears is kernel behaviour, exercised by the 'during' scenarios under a watchdog"]
     finish_proof(chk, proof_ok, fails, bad)
